@@ -107,6 +107,12 @@ def _subst_txt(F, e, defs, depth=0):
             return "%s.%s" % (_subst_txt(F, b, defs, depth + 1), e["n"])
         if k == "un":
             return "%s%s" % (e.get("op"), _subst_txt(F, e["e"], defs, depth + 1))
+        if k == "call" and e.get("op") == "[]" and e.get("obj") is not None and len(e.get("a", [])) == 1:
+            return "%s[%s]" % (_subst_txt(F, e["obj"], defs, depth + 1), _subst_txt(F, e["a"][0], defs, depth + 1))
+        if k == "call" and "f" in e and F is not None:
+            args = ",".join(_subst_txt(F, a, defs, depth + 1) for a in e.get("a", []))
+            obj = (_subst_txt(F, e["obj"], defs, depth + 1) + ".") if e.get("obj") is not None and strip(e["obj"]).get("k") != "this" else ""
+            return "%s%s(%s)" % (obj, F.fn(e["f"])["name"], args)
     return re.sub(r"\bthis[.>-]+", "", _expr_txt(e))
 
 
@@ -133,6 +139,10 @@ def bexp(F, e, defs):
     if not isinstance(e, dict):
         return ("atom", "?")
     k = e.get("k")
+    if k == "lit" or (k != "asg" and "cv" in e and e.get("cv") in (0, 1, True, False)):
+        v = e.get("cv", e.get("v"))
+        if v in (0, 1, True, False, "true", "false"):
+            return ("const", v in (1, True, "true"))
     if k == "var" and e.get("d") == "local" and e.get("n") in defs and e.get("ty") == "bool":
         return bexp(F, defs[e["n"]], defs)
     if k == "bin" and e.get("op") in ("&&", "||"):
@@ -167,6 +177,8 @@ def bexp(F, e, defs):
 def _atoms(b, out):
     if b[0] == "atom":
         out.add(b[1])
+    elif b[0] == "const":
+        pass
     else:
         for x in b[1:]:
             _atoms(x, out)
@@ -176,6 +188,8 @@ def _ev(b, env):
     t = b[0]
     if t == "atom":
         return env[b[1]]
+    if t == "const":
+        return b[1]
     if t == "not":
         return not _ev(b[1], env)
     if t == "and":
